@@ -405,10 +405,12 @@ class MpLib:
 
     def copysign(self, a, b):
         a, b = _m(a), _m(b)
+        r = -abs(a) if b < 0 else abs(a)
         if b < 0:
             WITNESS.hit("copysign_neg")
-            return Q(-abs(a))
-        return Q(abs(a))
+        if r != a:
+            WITNESS.hit("copysign_changes_value")
+        return Q(r)
 
     def maximum(self, a, b):
         a, b = _m(a), _m(b)
@@ -424,11 +426,16 @@ class MpLib:
 
     def nan_to_num(self, x, copy=True, nan=0.0, posinf=None, neginf=None):
         v = _m(x)
+        # a plain python number here is a constant sub-expression such as `(z != 0) * inf` that the compute layer
+        # builds as the *replacement value* of an outer nan_to_num: only operand-derived values (Q) are witnessed
+        derived = type(x) is Q
         if _isnan(v):
-            WITNESS.hit("nan_to_num_nan")
+            if derived:
+                WITNESS.hit("nan_to_num_nan")
             return _q(nan)
         if mpmath.isinf(v):
-            WITNESS.hit("nan_to_num_inf")
+            if derived:
+                WITNESS.hit("nan_to_num_inf")
             if v > 0:
                 return _q(posinf) if posinf is not None else Q(mpf(1.7976931348623157e308))
             return _q(neginf) if neginf is not None else Q(mpf(-1.7976931348623157e308))
